@@ -212,4 +212,16 @@ if __name__ == '__main__':
         '// C05: MOV (22 productions), XCHG (6), PUSH/POP, PUSHF/POPF, LAHF/SAHF, XLAT.\n'
         '// mov/xchg instantiations written by lib/mk_interp_harness.py; the rest comes from interp_c05_hand.rs.in.\n' + HDR
         + '\n'.join(m) + '\n\n' + hand + '\n' + table(mn + hand_names))
+    # C04: "read and written at that address, both widths, word = two consecutive bytes low-then-high"
+    c4 = []
+    c4n = []
+    for (k, w, mkd, mks, tail, args, probe) in MOV_FORMS:
+        if k in ('rm8', 'rm16', 'mr8', 'mr16', 'rl16', 'lr16'):
+            h = 'c04w_mov_%s' % k
+            c4.append('movop!(%s, "C04.access.%s", %d, %s, %s, %s,\n    |vm: &mut VM, ctx: &mut Context, d: &Op, s: &Op| p_mov__T_mov__%s(CUR, vm, ctx, "", (0, "mov", 0), %s));'
+                      % (h, k, w, mkd, mks, probe, tail, args))
+            c4n.append(h)
+    open(os.path.join(H, 'interp_c04w.rs'), 'w').write(
+        '// C04: accesses AT the resolved address (byte, and word = low byte at m, high byte at m+1 mod 2^20).\n' + HDR
+        + '\n'.join(c4) + '\n\n' + table(c4n))
     print('written')
